@@ -75,7 +75,7 @@ let str_event (e : event) : string =
       let child = match r.r_child with
         | None -> "-"
         | Some (CExec t) -> "X:" ^ str_table t
-        | Some (CFail (_, err)) ->
+        | Some (CFail (_, _, err)) ->
             "F:" ^ string_of_z err ^ ":" ^
             (match r.r_wrote with
              | Some (Some f, _) -> string_of_int (int_of_nat f)
